@@ -83,7 +83,7 @@ _DEPTH = re.compile(r"The depth of the complete state graph search is (\d+)")
 
 def _tlc_env(trace=None, xmx="3g", extra_env=None, tmpdir=None):
     e = dict(os.environ)
-    e["JAVA_TOOL_OPTIONS"] = f"-Xss1g -Xmx{xmx}" + (f" -Djava.io.tmpdir={tmpdir}" if tmpdir else "")
+    e["JAVA_TOOL_OPTIONS"] = f"-Xss1g -Xmx{xmx} -XX:ParallelGCThreads=2 -XX:CICompilerCount=2" + (f" -Djava.io.tmpdir={tmpdir}" if tmpdir else "")
     e.setdefault("EXPLAIN", "0")
     if trace:
         e["TRACE"] = trace
